@@ -41,6 +41,7 @@ KINDS = {
     'height_pressure': (['height_pressure', 'zp'], None, False),
     'bpch': (['bpch'], None, False),
     'bpch_bx': (['bpch', 'bxhght.bpch'], None, False),
+    'bpch_unl': (['bpch'], None, False),
     'landuse': (['landuse', 'lu'], None, False),
     'usr': (['usr'], None, False),
     'garbage': (['txt', 'dat'], None, False),
@@ -55,7 +56,8 @@ USR_MAGIC = b'USR1'
 def gen_config(rng, tier):
     kinds = rng.sample(['uamiv', 'boundary', 'one3d', 'icartt', 'nc3', 'nc4',
                         'ioapi_nc', 'temperature', 'usr', 'garbage', 'empty',
-                        'cloud_rain', 'wind', 'height_pressure', 'bpch', 'bpch_bx', 'landuse'],
+                        'cloud_rain', 'wind', 'height_pressure', 'bpch', 'bpch_bx', 'bpch_unl',
+                        'landuse'],
                        rng.randrange(3, 8))
     for must in rng.sample(['uamiv', 'one3d', 'nc3', 'icartt', 'ioapi_nc'], 2):
         if must not in kinds:
@@ -272,7 +274,7 @@ def _mkspec(rng, kind):
                 'nz': rng.randrange(2, 4), 'nt': rng.randrange(2, 4),
                 'sdate': 2002154, 'stime': 0., 'nland': 11,
                 'extra': rng.choice([[], ['LAI', 'TOPO']])}
-    if kind in ('bpch', 'bpch_bx'):
+    if kind in ('bpch', 'bpch_bx', 'bpch_unl'):
         return {'nt': rng.randrange(1, 3), 'ni': rng.randrange(1, 4), 'nj': rng.randrange(1, 4),
                 'nl': rng.randrange(1, 3)}
     if kind in ('one3d', 'temperature'):
@@ -312,13 +314,14 @@ def _write(kind, spec, path):
     elif kind == 'landuse':
         b, _ = camx.encode_landuse(camx.landuse_from_spec(spec))
         open(path, 'wb').write(b)
-    elif kind in ('bpch', 'bpch_bx'):
+    elif kind in ('bpch', 'bpch_bx', 'bpch_unl'):
         times = []
-        cat = 'IJ-AVG-$' if kind == 'bpch' else 'BXHGHT-$'
+        cat = 'BXHGHT-$' if kind == 'bpch_bx' else 'IJ-AVG-$'
+        tid = 99 if kind == 'bpch_unl' else 1     # 99 has no line in tracerinfo.dat
         for t in range(spec['nt']):
             a = (np.arange(spec['nl'] * spec['nj'] * spec['ni'], dtype='f4') + 1 + 100 * t
                  ).reshape(spec['nl'], spec['nj'], spec['ni']) * 1e-9
-            times.append([{'category': cat, 'tracer': 1, 'unit': 'v/v', 'tau0': 100. + t,
+            times.append([{'category': cat, 'tracer': tid, 'unit': 'v/v', 'tau0': 100. + t,
                            'tau1': 101. + t, 'start': (3, 4, 1), 'data': a}])
         b, _ = bpchcodec.encode({'modelname': 'GEOS5_47L', 'modelres': (5.0, 4.0),
                                  'halfpolar': 1, 'center180': 1, 'times': times})
